@@ -59,7 +59,7 @@ PROPERTIES = {
             "quick": [B("small-a", "plain", "small-a", 5000, 30), B("small-b", "plain", "small-b", 1500, 10), B("envscan-sample", "plain", "small-a", 224, 25, mode="envscan"),
                       B("shipped", "plain", "shipped", 40, 40, workers=8, gate=4)],
             "thorough": [B("small-a", "plain", "small-a", 100000, 300), B("small-b", "plain", "small-b", 40000, 120), B("envscan-all-65536", "plain", "small-a", 3584, 600, mode="envscan"),
-                         B("shipped", "plain", "shipped", 1000, 360, workers=8, gate=8)],
+                         B("shipped", "plain", "shipped", 1000, 360, workers=8, gate=8), B("contract-audit", "assert", "small-a", 3000, 40)],
         },
     },
     "C15": {
@@ -75,7 +75,7 @@ PROPERTIES = {
             "quick": [B("enum-small-a", "plain", "small-a", 100000, 40, mode="enum"), B("seeded-small-a", "plain", "small-a", 4000, 30), B("enum-shipped", "plain", "shipped", 100000, 60, workers=8, mode="enum", gate=2),
                       B("seeded-shipped", "plain", "shipped", 24, 25, workers=8, gate=2)],
             "thorough": [B("enum-small-a", "plain", "small-a", 100000, 300, mode="enum"), B("enum-small-b", "plain", "small-b", 100000, 300, mode="enum"), B("seeded-small-a", "plain", "small-a", 100000, 300),
-                         B("enum-shipped", "plain", "shipped", 100000, 600, workers=8, mode="enum", gate=8), B("seeded-shipped", "plain", "shipped", 600, 300, workers=8, gate=8)],
+                         B("enum-shipped", "plain", "shipped", 100000, 600, workers=8, mode="enum", gate=8), B("seeded-shipped", "plain", "shipped", 600, 300, workers=8, gate=8), B("contract-audit", "assert", "small-a", 3000, 40)],
         },
     },
     "C16": {
@@ -87,7 +87,7 @@ PROPERTIES = {
         "expected_probes": ["seam_rw_rx", "seam_audits"],
         "tiers": {
             "quick": [B("small-a", "plain", "small-a", 4000, 30), B("small-b", "plain", "small-b", 1000, 10), B("shipped", "plain", "shipped", 40, 40, workers=8, gate=4)],
-            "thorough": [B("small-a", "plain", "small-a", 100000, 300), B("small-b", "plain", "small-b", 40000, 120), B("shipped", "plain", "shipped", 1000, 360, workers=8, gate=8)],
+            "thorough": [B("small-a", "plain", "small-a", 100000, 300), B("small-b", "plain", "small-b", 40000, 120), B("shipped", "plain", "shipped", 1000, 360, workers=8, gate=8), B("contract-audit", "assert", "small-a", 3000, 40)],
         },
     },
     "C14": {
@@ -104,7 +104,7 @@ PROPERTIES = {
             "quick": [B("tsan-small-a", "tsan", "small-a", 1500, 45), B("plain-small-a", "plain", "small-a", 3000, 25), B("plain-small-b", "plain", "small-b", 1000, 10),
                       B("tsan-shipped", "tsan", "shipped", 16, 45, workers=8, gate=2)],
             "thorough": [B("tsan-small-a", "tsan", "small-a", 40000, 420), B("tsan-small-b", "tsan", "small-b", 15000, 180), B("plain-small-a", "plain", "small-a", 150000, 300),
-                         B("plain-small-b", "plain", "small-b", 50000, 120), B("tsan-shipped", "tsan", "shipped", 300, 420, workers=8, gate=4), B("plain-shipped", "plain", "shipped", 300, 240, workers=8, gate=4)],
+                         B("plain-small-b", "plain", "small-b", 50000, 120), B("tsan-shipped", "tsan", "shipped", 300, 420, workers=8, gate=4), B("plain-shipped", "plain", "shipped", 300, 240, workers=8, gate=4), B("contract-audit", "assert", "small-a", 3000, 40)],
         },
     },
     "C08": {
@@ -120,7 +120,7 @@ PROPERTIES = {
             "quick": [B("plain-small-a", "plain", "small-a", 4000, 30), B("plain-small-b", "plain", "small-b", 1500, 10), B("tsan-small-a", "tsan", "small-a", 600, 20),
                       B("plain-shipped", "plain", "shipped", 64, 40, workers=8, gate=4)],
             "thorough": [B("plain-small-a", "plain", "small-a", 150000, 300), B("plain-small-b", "plain", "small-b", 60000, 120), B("tsan-small-a", "tsan", "small-a", 20000, 240),
-                         B("plain-shipped", "plain", "shipped", 2000, 420, workers=8, gate=8)],
+                         B("plain-shipped", "plain", "shipped", 2000, 420, workers=8, gate=8), B("contract-audit", "assert", "small-a", 3000, 40)],
         },
     },
     "C11": {
